@@ -150,16 +150,18 @@ class C05(Prop):
                     other.add((a['link'], a['attr']))
         tank_adj = set(l['id'] for l in scn['links'] if nm[l['a']]['type'] == 'T' or nm[l['b']]['type'] == 'T')
         tables = out.tables
-        for t in inv.rows(tables):
+        rows_ = inv.rows(tables)
+        if any(b_ <= a_ for a_, b_ in zip(rows_, rows_[1:])):
+            return [V('c05.report_index_not_increasing', 'index', 'reported times %r' % (rows_[:14],))]
+        for t in rows_:
             nd, lk = inv.row_view(tables, t)
             iso = inv.ref_isolated(scn, lk['status'])
             vals = []
             for x in conds:
                 src = x['cond'].get('node') or x['cond'].get('tank')
                 if src in iso:
-                    vals.append(None)
-                    bump(c, 'c05.skipped_isolated_source')
-                    continue
+                    # a junction that is cut off reports zero pressure (C09); the condition is judged on that reported state like any other
+                    bump(c, 'c05.isolated_source_rows')
                 vals.append(truth(x['cond'], cond_value(x['cond'], nd, nm)))
             for x, tr in zip(conds, vals):
                 a = x['then'][0]
